@@ -6,14 +6,16 @@ usage: seedcheck.py <Cxx> <k> [extra properties to check,...]
 import json, os, shutil, subprocess, sys, xml.etree.ElementTree as ET
 pid, k = sys.argv[1], sys.argv[2]
 extra = sys.argv[3].split(",") if len(sys.argv) > 3 else []
-src = "/tmp/seed/out/%s/%s" % (pid, k); wt = "/tmp/seed/" + pid
+round_ = int(os.environ.get("SEED_ROUND", "1"))
+src = "/tmp/seed/out%s/%s/%s" % ("" if round_ == 1 else str(round_), pid, k); wt = "/tmp/seed/" + pid
+label = str(int(k) + 2 * (round_ - 1))
 env = dict(os.environ, PYTHONPATH=wt + "/src", PYTHONHASHSEED="0")
 def sh(cmd, **kw): return subprocess.run(cmd, shell=True, capture_output=True, text=True, **kw)
 def demo():
     p = sh("timeout 300 /venv/bin/python %s/demo.py" % src, env=env, cwd=src); return p.returncode, (p.stdout + p.stderr).strip()[-400:]
 def passed_tests():
-    sh("timeout 900 /venv/bin/python -m pytest -q -p no:cacheprovider --timeout=900 --junitxml=/tmp/seed/out/%s/junit.xml" % pid, env=env, cwd=wt)
-    root = ET.parse("/tmp/seed/out/%s/junit.xml" % pid).getroot(); ok = set()
+    sh("timeout 900 /venv/bin/python -m pytest -q -p no:cacheprovider --timeout=900 --junitxml=%s/junit.xml" % src, env=env, cwd=wt)
+    root = ET.parse("%s/junit.xml" % src).getroot(); ok = set()
     for tc in root.iter("testcase"):
         if not any(c.tag in ("failure", "error", "skipped") for c in tc): ok.add(tc.get("classname") + "::" + tc.get("name"))
     return ok
@@ -21,7 +23,7 @@ base = set(json.load(open("/root/.vp/BASELINE.json"))["stable_pass"])
 import datetime
 if datetime.datetime.utcnow().hour == 23:      # this baseline test fails by construction between 23:00 and 23:59 UTC, with or without any change
     base.discard("tests.test_schedule_tools::test_pretty_next_run_with_todays_day_should_return_due_today")
-meta = {"property": pid, "variant": k}
+meta = {"property": pid, "variant": label, "seeding_round": round_}
 sh("git -C %s checkout -- ." % wt)
 rc0, out0 = demo(); meta["demo_on_clean_tree"] = {"exit": rc0, "tail": out0[-200:]}
 a = sh("git -C %s apply %s/patch.diff" % (wt, src)); meta["patch_applies"] = a.returncode == 0
@@ -49,8 +51,8 @@ meta["needs"] = open(src + "/notes.md").read().strip() if os.path.exists(src + "
 meta["ran"] = ["PYTHONPATH=<worktree>/src python demo.py on the clean worktree and with the patch",
                "pytest in the worktree with the patch, passed set compared with BASELINE.json stable_pass",
                "git -C /repo apply patch.diff; ./check <property> --tier quick; git -C /repo checkout -- ."]
-dst = "/verif/seeded/%s-%s" % (pid, k); os.makedirs(dst, exist_ok=True)
+dst = "/verif/seeded/%s-%s" % (pid, label); os.makedirs(dst, exist_ok=True)
 for f in ("patch.diff", "demo.py", "notes.md"):
     if os.path.exists(os.path.join(src, f)): shutil.copy(os.path.join(src, f), dst)
 json.dump(meta, open(dst + "/meta.json", "w"), indent=1)
-print(pid, k, "confirmed" if meta["confirmed"] else "NOT CONFIRMED", "| caught by:", meta["caught_by"], "|", {p: r["verdict"][:110] for p, r in results.items()})
+print(pid, label, "confirmed" if meta["confirmed"] else "NOT CONFIRMED", "| caught by:", meta["caught_by"], "|", {p: r["verdict"][:110] for p, r in results.items()})
